@@ -15,7 +15,10 @@ SPEC = {
         ('label-genericity(upsert keys)', 'upsert', '^upsert:absent'),
         ("label-genericity(_match_states)", 'match_states', r'^cover:'),
         ("label-genericity(non-emitting search)", 'ne_inner', r'^ne-inner:one-non'),
-        ("label-genericity(non-emitting link)", 'ne_end', r'^ne-end:one-emitting')],
+        ("label-genericity(non-emitting link)", 'ne_end', r'^ne-end:one-emitting'),
+        ("renaming / re-listing cannot change which projections a state carries: every call of next() gets segment objects of its own (_match_states)", 'match_states', '^fresh:'),
+        ("segment objects per call (non-emitting step)", 'ne_inner', '^fresh:'),
+        ("segment objects per call (link to the next observation)", 'ne_end', '^fresh:')],
     'bounded': [
         ('transformations', suites.case_C16, 1500, 200000, RULE + '; ' + 'non-trivial = best path has >= 2 states; transformations: pure renaming, reorder, axis swap, scale 2^k for k in {-8,-3,-1,1,3,10,20}, translation by representable offsets (no pruning)', '')],
 }
